@@ -201,7 +201,8 @@ def opOracleSat : SHandler := fun st a => do
   let occs := ruleVarOccs locals globals 8 core.rule
   let utilFields := (locals.map fun (_, r) => ruleFields r).flatten
   if occs.eraseDups.length != occs.length || hasZeroWidth d.tree
-      || !(fieldsUnique d.tree (ruleFields core.rule ++ utilFields)) || !core.constraints.isEmpty then
+      || !(fieldsUnique d.tree (ruleFields core.rule ++ utilFields)) || !core.constraints.isEmpty
+      || globals.any (fun (_, c) => !c.constraints.isEmpty) then
     pure (st, Json.str "skip")
   else
     let ids ← (← getArr a "nodes").toList.mapM fun x => x.getNat?
